@@ -354,7 +354,7 @@ func genC18() {
 	sfset, sf := parseFile("syncer/bisync.go")
 	syn := map[string]string{}
 	for _, fn := range []string{"isBisyncNamespaceKey", "touchesBisyncNamespace", "isBisyncControlCommand",
-		"isBisyncMirroredTransaction", "isBisyncMarkerCommand", "bisyncSlotMode"} {
+		"isBisyncMirroredTransaction", "isBisyncMarkerCommand", "isBisyncMarkerExpiryCommand", "bisyncSlotMode"} {
 		syn[fn] = c18BodyFact(sfset, sf, fn)
 	}
 	facts["bisync_syncer_predicates"] = syn
